@@ -287,6 +287,16 @@ def make_popen(k):
     return FakePopen
 
 
+class _FakeSelect(object):
+    """stands for the `select` module in circus.arbiter: readiness of the managed sockets is scripted"""
+
+    def __init__(self, sim):
+        self._sim = sim
+
+    def select(self, rlist, wlist, xlist, timeout=None):
+        return ([999] if self._sim.sock_ready else [], [], [])
+
+
 class _FakeOs(object):
     def __init__(self, k):
         self._k = k
@@ -449,6 +459,7 @@ class Sim(object):
         self.blocked = False
         self.errors = []
         self.raised = []
+        self.sock_ready = False
 
     # -- patch points
     def _tornado_sleep(self, duration):
@@ -474,7 +485,8 @@ class Sim(object):
         from tornado.ioloop import IOLoop
         self._saved = [(P, "Popen", P.Popen), (W, "os", W.os), (A, "os", A.os), (W, "time", W.time),
                        (A, "time", A.time), (P, "time", P.time), (W, "tornado_sleep", W.tornado_sleep),
-                       (A, "tornado_sleep", A.tornado_sleep)]
+                       (A, "tornado_sleep", A.tornado_sleep), (A, "select", A.select)]
+        A.select = _FakeSelect(self)
         P.Popen = make_popen(self.k)
         W.os = _FakeOs(self.k)
         A.os = _FakeOs(self.k)
@@ -633,6 +645,8 @@ class Sim(object):
                 k.kill(op[1], op[2], via="x")
             elif kind == "fault":
                 k.faults.append((op[1], op[2], op[3]))
+            elif kind == "sockev":
+                self.sock_ready = bool(op[1])      # a connection is waiting on a managed socket (select reports it)
             else:
                 raise ValueError("unknown op %r" % (op,))
             self.settle()
